@@ -18,6 +18,11 @@ Round 4: overlays are also registered INSIDE the internal window and removed aga
 calls that are REJECTED or name no location (c11_gen.gen_rej) occur in the configuration sequence and between
 accesses and must leave no trace (Checker._step_rej); the bulk view of the internal memory is compared with the bus at
 the end of a machine (bulk_check).
+Round 5: PORT-SIZED overlays (1-3 bytes, narrower than a wide access; 1 configuration in 3) and an address class that
+places accesses at every alignment around any region of 1-3 bytes -- half of them ENCLOSING it (first and last byte
+outside, the region strictly inside); Rust ROM images also through the system-image entry point
+(load_pce500_system_image / .._into_memory + map) with generated image lengths (full 1 MiB, longer, window-sized,
+in between), situation flag "sysimg".  Both dimensions draw from a stream of their own (c11_gen.gen_case: st2).
 rs-cpu additionally runs a model-free composition twin (see run_twin_batch) for wide accesses inside the internal
 memory window, observed through CPU byte loads, so that the device register block at 0xF0.. is covered by
 "multi-byte accesses equal the composition of byte accesses" without modelling the devices.
@@ -48,6 +53,13 @@ RULE = ("machines = (memory configuration, history of 8/16/24-bit loads and stor
         "accesses and must leave every sentinel and the latest stores unchanged; stored values include landmark "
         "values (zero / 0xFF bytes); at the end of a machine the bulk view of the internal memory "
         "(get_internal_memory_bytes / internal_slice) must agree with the bus. "
+        "Round 5: 1 configuration in 3 adds 1-3 port-sized overlays (1-3 bytes, some adjacent to / one byte away from "
+        "another overlay); in edge/mixed histories 1 access in 6 of a configuration with a region of 1-3 bytes is "
+        "placed at a generated alignment around it, half of the wide ones enclosing it (labels "
+        "op:<ld|st>24/<api>-enclosing-narrow-region = executed and checked); 1 Rust configuration in 4 loads the ROM "
+        "image through load_pce500_system_image (rs-cpu) / load_pce500_system_image_into_memory + "
+        "configure_pce500_memory_map (rs) with an image of 1 MiB / 1 MiB + 256 / 256 KiB / 256 KiB + 1 / 512 KiB / "
+        "1 MiB - 1 bytes (labels cfg:sysimg=*, op:st-into-readonly-window-of-full-system-image). "
         "Non-trivial = the history contains a store whose cells are later loaded through a different raw address "
         "(alias or overlapping neighbour access), or a store into a read-only/absent cell; distinct = "
         "hash(configuration, history). rs-cpu: every 16/24-bit access lying inside the internal window is also run as "
